@@ -239,11 +239,17 @@ func (c *c15Case) stepAll(op gOp, label string, render func(ev *gEvent) string) 
 // joins/leaves; each member is either active (heartbeats every period) or silent.
 func c15Suffix(rng *rand.Rand, cfg gConfig, virtual bool) []gOp {
 	var ops []gOp
-	// immediate probe block: every member heartbeats, syncs, commits, fetches
+	// immediate probe block: every member syncs, commits, fetches and (half of them) heartbeats, in a drawn
+	// order. A member that does not heartbeat here lives on the heartbeat time the old coordinator persisted.
 	for i := 0; i < cfg.M; i++ {
-		ops = append(ops, gOp{K: "hb", Slot: i}, gOp{K: "sync", Slot: i},
-			gOp{K: "commit", Slot: i, Topic: cfg.Universe[rng.Intn(len(cfg.Universe))], Part: int32(rng.Intn(5))},
-			gOp{K: "fetch", Slot: i, Topic: cfg.Universe[rng.Intn(len(cfg.Universe))], Part: int32(rng.Intn(5))})
+		blk := []gOp{{K: "sync", Slot: i},
+			{K: "commit", Slot: i, Topic: cfg.Universe[rng.Intn(len(cfg.Universe))], Part: int32(rng.Intn(5))},
+			{K: "fetch", Slot: i, Topic: cfg.Universe[rng.Intn(len(cfg.Universe))], Part: int32(rng.Intn(5))}}
+		if rng.Intn(2) == 0 {
+			blk = append(blk, gOp{K: "hb", Slot: i})
+		}
+		rng.Shuffle(len(blk), func(a, b int) { blk[a], blk[b] = blk[b], blk[a] })
+		ops = append(ops, blk...)
 	}
 	rounds := rng.Intn(9)
 	active := make([]bool, cfg.M)
@@ -377,13 +383,28 @@ func TestVerifC15(t *testing.T) {
 
 func c15Mem(t *testing.T, r *verifkit.Run) {
 	p := c15Profile()
-	n := r.N(400, 12000)
+	n := r.N(400, 8000)
 	for ci := 0; ci < n; ci++ {
 		rng := r.Rand(ci)
 		cfg := gGenConfig(rng, p, fmt.Sprintf("g%d", ci))
 		ops := gGenOps(rng, p, cfg)
 		if rng.Intn(3) != 0 { // most cases fail over a settled group
 			ops = append(ops, gOp{K: "settle"})
+		}
+		if ci%4 == 3 {
+			// the last thing before the failover is a round of heartbeats well after the last join/sync:
+			// what the new coordinator knows about liveness is then exactly what those heartbeats persisted
+			minS := cfg.SessionMs[0]
+			for _, s := range cfg.SessionMs {
+				if s < minS {
+					minS = s
+				}
+			}
+			ops = append(ops, gOp{K: "settle"}, gOp{K: "advance", DtMs: minS/4 + rng.Int63n(minS/2)})
+			for i := 0; i < cfg.M; i++ {
+				ops = append(ops, gOp{K: "hb", Slot: i})
+			}
+			ops = append(ops, gOp{K: "advance", DtMs: 1 + rng.Int63n(minS/8)})
 		}
 		var c *c15Case
 		synctest.Test(t, func(t *testing.T) {
@@ -468,7 +489,7 @@ func c15Etcd(t *testing.T, r *verifkit.Run) {
 	p.Cleanups = []int64{3600000}
 	p.WAdvance = 0
 	p.WFailover = 0
-	n := r.N(30, 600)
+	n := r.N(30, 400)
 	deadline := time.Now().Add(5 * time.Minute)
 	if r.Thorough() {
 		deadline = time.Now().Add(25 * time.Minute)
